@@ -115,7 +115,7 @@ def is_ortho(c):
 @st.composite
 def coord_params(draw, n_atoms=None, classes=None, max_atoms=16, min_atoms=2):
     n = n_atoms if n_atoms is not None else draw(st.integers(min_atoms, max_atoms))
-    cls = draw(st.sampled_from(classes or ["inside", "spread", "spread", "faces", "clustered", "paired", "paired"]))
+    cls = draw(st.sampled_from(classes or ["inside", "spread", "spread", "faces", "clustered", "paired", "paired", "halfbox"]))
     return {"n": n, "cls": cls, "spread": draw(st.sampled_from([1, 3, 8])),
             "sigma": draw(st.sampled_from([0.05, 0.15, 0.5])),
             "offset": draw(st.sampled_from([0.0, 0.0, 0.0, 30.0, 500.0])),
@@ -134,6 +134,13 @@ def expand_coords(p, n_frames, Hs, exact=False):
             frac = rng.uniform(0, 1, (n, 3))
         elif cls == "spread":
             frac = rng.uniform(-p["spread"], p["spread"], (n, 3))
+        elif cls == "halfbox":
+            # a compact system in a large cell (solvent stripped, cell kept): all atoms inside an axis-aligned box whose edges
+            # are 0.3 / 0.49 / 0.6 of the cell edge lengths; in skewed cells opposite corners can be closer through an image
+            fr = [0.3, 0.49, 0.6][int(rng.integers(0, 3))]
+            edge = np.linalg.norm(H, axis=1) * fr
+            out[f] = rng.uniform(0, 1, (n, 3)) * edge + rng.uniform(-1, 1, 3) @ H * int(rng.integers(0, 2))
+            continue
         elif cls == "mixed":
             # most atoms inside the primary cell, the others moved out of it by lattice vectors (unwrapped molecules)
             frac = rng.uniform(0, 1, (n, 3)) + rng.integers(-p["spread"], p["spread"] + 1, (n, 3)) * (rng.random((n, 1)) < 0.4)
